@@ -173,6 +173,10 @@ pub fn eval_doc(src: &str) -> String {
             let mut nav = String::new();
             let mut spans_ok = true;
             walk(src, &v, &cm, 0, &mut nav, &mut spans_ok);
+            // sub_fragments() of every fragment: forward, backward and adaptor-driven consumption agree
+            for (_, f) in v.traverse() {
+                spans_ok &= styles_agree(&|| f.sub_fragments(), &|g| frag_tag(&g)) && styles_agree_back(&|| f.sub_fragments(), &|g| frag_tag(&g));
+            }
             let s = format!(
                 "V={} C={} CA={}/{}/{}/{}/{}/{} T={} F={} S={} N={}",
                 v.volume(),
